@@ -546,7 +546,11 @@ func c12SessHistory(t *testing.T, out *vfOut, rnd *vfRand, users []webUser, name
 	emitStep := func(op string) {
 		steps = append(steps, vfPair(op, vfPair(c12STable(auth.sessions, ids), c12STable(c12Disk(auth), ids))))
 	}
+	forced := -1
 	pickTok := func() (string, *c12Tok, int) {
+		if forced >= 0 && forced < len(toks) {
+			return toks[forced].hex, toks[forced], forced
+		}
 		if len(toks) == 0 || rnd.Chance(1, 10) {
 			u := unknown[rnd.Intn(len(unknown))]
 			return u, nil, ids[u]
@@ -556,8 +560,17 @@ func c12SessHistory(t *testing.T, out *vfOut, rnd *vfRand, users []webUser, name
 	}
 	for i := 0; i < n; i++ {
 		var op string
+		forced = -1
+		past := false
 		if script != nil {
-			op = script[i]
+			var arg string
+			op, arg, _ = strings.Cut(script[i], ":")
+			if arg != "" {
+				forced, _ = strconv.Atoi(arg)
+			}
+			if op == "setexp-past" {
+				op, past = "setexp", true
+			}
 		} else {
 			op = vfPick(rnd, []string{"new", "check", "check", "check", "http", "logout", "restart", "setexp", "setexp", "setexp"})
 			if len(toks) == 0 {
@@ -706,6 +719,9 @@ func c12SessHistory(t *testing.T, out *vfOut, rnd *vfRand, users []webUser, name
 				continue
 			}
 			id := rnd.Intn(len(toks))
+			if forced >= 0 && forced < len(toks) {
+				id = forced
+			}
 			tk := toks[id]
 			s, ok := auth.sessions[tk.hex]
 			if !ok {
@@ -715,6 +731,9 @@ func c12SessHistory(t *testing.T, out *vfOut, rnd *vfRand, users []webUser, name
 			e := vfPick(rnd, []uint32{now - 1, now, now + 1, now + 2, now + 3, now + ttl, now + ttl - 86400, now + 86400, now + 86401,
 				(now/86400+1)*86400 - 1, (now/86400 + 1) * 86400, (now+ttl)/86400*86400 - 1, (now + ttl) / 86400 * 86400,
 				uint32(rnd.U64()), 0, 4294967295, now - 86400, now + uint32(rnd.Intn(100000))})
+			if past {
+				e = now - 10
+			}
 			a := auth
 			a.lock.Lock()
 			s.expire = e
@@ -741,6 +760,75 @@ func c12SessHistory(t *testing.T, out *vfOut, rnd *vfRand, users []webUser, name
 	out.Emit(c)
 }
 
+// c12BulkRestart: many sessions over several bbolt pages, a part of them
+// expired while the process is down; the reload deletes while it iterates.
+// Monitor only (the per-step tables would be too large to replay in Coq): after
+// the restart exactly the unexpired sessions are in memory and on disk.
+func c12BulkRestart(t *testing.T, out *vfOut, users []webUser, n int) {
+	fn := filepath.Join(t.TempDir(), "sessions.db")
+	auth := InitAuth(fn, users, 3600, nil, netutil.SliceSubnetSet(nil))
+	if auth == nil {
+		t.Fatal("InitAuth failed")
+	}
+	now := uint32(time.Now().Unix())
+	want := map[string]bool{}
+	rnd := vfNewRand(77)
+	for i := 0; i < n; i++ {
+		tok := make([]byte, sessionTokenSize)
+		for j := range tok {
+			tok[j] = byte(rnd.U64())
+		}
+		s := &session{userName: c12User, expire: now + 3600}
+		switch {
+		case i%3 == 0:
+			s.expire = now - 1 - uint32(i)
+		case i%7 == 0:
+			s.expire = now // expire <= now: gone
+		}
+		auth.lock.Lock()
+		auth.sessions[hex.EncodeToString(tok)] = s
+		auth.lock.Unlock()
+		if !auth.storeSession(tok, s) {
+			t.Fatal("storeSession failed")
+		}
+		if s.expire > now+2 {
+			want[hex.EncodeToString(tok)] = true
+		}
+	}
+	auth.Close()
+	auth = InitAuth(fn, users, 3600, nil, netutil.SliceSubnetSet(nil))
+	if auth == nil {
+		t.Fatal("InitAuth failed on re-open")
+	}
+	defer auth.Close()
+	disk := c12Disk(auth)
+	monOK, msg := true, ""
+	for k := range want {
+		if _, ok := auth.sessions[k]; !ok {
+			monOK, msg = false, "a live session is not in memory after the restart"
+		}
+		if _, ok := disk[k]; !ok {
+			monOK, msg = false, "a live session is not on disk after the restart"
+		}
+	}
+	for k, s := range auth.sessions {
+		if !want[k] && s.expire <= now {
+			monOK, msg = false, "an expired session was loaded at restart"
+		}
+	}
+	for k, s := range disk {
+		if !want[k] && s.expire <= now {
+			monOK, msg = false, fmt.Sprintf("an expired session (%d <= %d) is still in sessions.db after the restart", s.expire, now)
+		}
+		if _, ok := auth.sessions[k]; !ok {
+			monOK, msg = false, "sessions.db holds a session that is not in memory after the restart"
+		}
+	}
+	out.Emit(vfCase{Coq: vfApp("C12.CSess", vfList("C12.sess_op * (C12.stable * C12.stable)", nil)), Key: "bulk-restart", Nontrivial: true,
+		MonitorOK: monOK, MonitorMsg: msg, FindingKey: "sess-bulk-restart", Classes: []string{"sess-bulk-restart"},
+		Desc: map[string]any{"kind": "bulk-restart", "sessions": n, "live": len(want), "in_memory_after": len(auth.sessions), "on_disk_after": len(disk)}})
+}
+
 // ---------------------------------------------------------------------------
 
 func TestVerifC12(t *testing.T) {
@@ -765,8 +853,29 @@ func TestVerifC12(t *testing.T) {
 	c12SessHistory(t, out, vfNewRand(3), users, "prelude/lifecycle", 12, []string{
 		"new", "check", "http", "new", "logout", "check", "restart", "check", "setexp", "check", "restart", "check"})
 
+	// many sessions, every other one expired while the process is down: the
+	// reload deletes inside a bbolt ForEach
+	many := []string{}
+	for i := 0; i < 40; i++ {
+		many = append(many, "new")
+	}
+	for i := 0; i < 40; i += 2 {
+		many = append(many, fmt.Sprintf("setexp-past:%d", i))
+	}
+	many = append(many, "restart")
+	for i := 0; i < 40; i++ {
+		many = append(many, fmt.Sprintf("check:%d", i))
+	}
+	many = append(many, "restart")
+	c12SessHistory(t, out, vfNewRand(4), users, "prelude/many-sessions-restart", len(many), many)
+	c12BulkRestart(t, out, users, out.Scale(300, 2000))
+	if failedAuthTTL != time.Minute {
+		out.Emit(vfCase{Coq: vfApp("C12.CSess", vfList("C12.sess_op * (C12.stable * C12.stable)", nil)), MonitorOK: false,
+			MonitorMsg: fmt.Sprintf("the window of failed attempts is %v, the property says one minute", failedAuthTTL), FindingKey: "limiter-window-not-a-minute"})
+	}
+
 	// --- random histories
-	nLim := out.Scale(300, 6000)
+	nLim := out.Scale(300, 2500)
 	for i := 0; i < nLim; i++ {
 		r := rnd.Fork(uint64(i))
 		max := uint(1 + r.Intn(5))
@@ -788,13 +897,13 @@ func TestVerifC12(t *testing.T) {
 				return at
 			})
 	}
-	nLogin := out.Scale(120, 2500)
+	nLogin := out.Scale(120, 1000)
 	for i := 0; i < nLogin; i++ {
 		r := rnd.Fork(uint64(100000 + i))
 		block := vfPick(r, []time.Duration{10 * time.Second, 30 * time.Second, time.Minute, 90 * time.Second, 15 * time.Minute})
 		c12LoginHistory(t, out, r, users, "random", uint(1+r.Intn(5)), block, 6+r.Intn(25), nil)
 	}
-	nSess := out.Scale(150, 3000)
+	nSess := out.Scale(150, 1200)
 	for i := 0; i < nSess; i++ {
 		r := rnd.Fork(uint64(200000 + i))
 		c12SessHistory(t, out, r, users, "random", 6+r.Intn(25), nil)
